@@ -80,9 +80,9 @@ func (RxEngine) Generate(prop string, r *kit.Rand, tier string) *kit.Scenario[Rx
 		sc.Ops = append(sc.Ops, RxOp{Base: "interest", Seed: r.Intn(1 << 16)}, RxOp{Base: "data", Seed: r.Intn(1 << 16)})
 		return sc
 	}
-	bases := []string{"interest", "data", "lp-interest", "lp-data", "frag", "nack", "idle", "random"}
+	bases := []string{"interest", "data", "lp-interest", "lp-data", "frag", "nack", "idle", "random", "edge"}
 	for i := 0; i < n; i++ {
-		o := RxOp{Base: bases[r.Weighted([]int{5, 5, 5, 5, 6, 1, 1, 2})], Seed: r.Intn(1 << 16)}
+		o := RxOp{Base: bases[r.Weighted([]int{5, 5, 5, 5, 6, 1, 1, 2, 3})], Seed: r.Intn(1 << 16)}
 		switch r.Weighted([]int{15, 25, 10, 10, 8, 6, 4, 12, 8}) {
 		case 0:
 			o.Mut = ""
@@ -341,6 +341,29 @@ func (w *rxWorld) buildFrame(o *RxOp) []byte {
 		if o.Seed&1 == 1 {
 			f[0] = kit.Pick(r, []byte{0x05, 0x06, 0x64})
 		}
+	case "edge":
+		// hand-encoded packets that are unusual but structurally valid (or nearly so)
+		tlv := func(t byte, v []byte) []byte { return append([]byte{t, byte(len(v))}, v...) }
+		nonce := tlv(0x0a, []byte{1, 2, 3, byte(o.Seed)})
+		emptyName := []byte{0x07, 0x00}
+		digest32 := make([]byte, 32)
+		cases := [][]byte{
+			tlv(0x05, append(append([]byte{}, emptyName...), nonce...)),                                    // Interest with the empty name
+			tlv(0x05, append(append(append([]byte{}, emptyName...), nonce...), 0x24, 0x00)),                  // ... and empty ApplicationParameters
+			tlv(0x05, append(append([]byte{}, emptyName...), 0x24, 0x00)),                                    // ... parameters, no nonce
+			tlv(0x05, append(append(append([]byte{}, emptyName...), nonce...), tlv(0x24, []byte{9, 9})...)),  // ... non-empty parameters
+			tlv(0x06, emptyName),                                                                            // Data with the empty name and nothing else
+			tlv(0x06, append(append([]byte{}, emptyName...), tlv(0x15, []byte{1})...)),                       // Data, empty name, content
+			tlv(0x05, append(tlv(0x07, tlv(0x02, digest32)), nonce...)),                                      // Interest whose only component is a parameters digest
+			tlv(0x05, append(append(tlv(0x07, tlv(0x02, digest32)), nonce...), 0x24, 0x00)),                  // ... with parameters (digest mismatch)
+			tlv(0x05, append(tlv(0x07, tlv(0x08, nil)), nonce...)),                                           // Interest with one zero-length component
+			tlv(0x05, append(tlv(0x07, append(tlv(0x08, []byte{'a'}), tlv(0x01, digest32)...)), nonce...)),    // implicit digest component
+			tlv(0x64, tlv(0x50, tlv(0x05, append(append([]byte{}, emptyName...), nonce...)))),                // the first case inside an LpPacket
+			tlv(0x64, append(tlv(0x62, []byte{0, 0, 1, 2, 3, 4}), tlv(0x50, tlv(0x06, emptyName))...)),       // empty-name Data with a PIT token
+			tlv(0x64, nil),                                                                                  // empty LpPacket
+			tlv(0x64, tlv(0x50, nil)),                                                                       // LpPacket with an empty fragment
+		}
+		f = cases[o.Seed%len(cases)]
 	case "big":
 		// an opaque TLV block of o.Seed bytes in total (3-byte length form); not a valid packet
 		l := o.Seed - 4
